@@ -254,6 +254,10 @@ def _run(repo, chk):
         evp = pf.params[2]
         dis = [n for n in gp.nodes if n.kind == 'stmt' and pat.fires(n.ast, '_disconnect') and not any(k == 'except' for k, _a in n.ctx)]
         need(dis, f'C12.f: {cname}._process never reports a hang-up')
+        # (not the branch that drops an object which was closed without being discarded: what the kernel reports there is not about that object, C10.c)
+        stale_flags = {n.ast.targets[0].id for n in gp.nodes if n.kind == 'stmt' and isinstance(n.ast, ast.Assign) and isinstance(n.ast.targets[0], ast.Name)
+                       and '.fileno()' in src(n.ast.value) and pf.params[1] in Q.names_used(n.ast.value)}
+        dis = [n for n in dis if pat.guarded_by(gp, n, pat.test_edge(lambda tt, pol: pol == 'T' and isinstance(tt, ast.Name) and tt.id in stale_flags)) is not None]
         for dn in dis:
             q = pat.guarded_by(gp, dn, pat.test_edge(lambda tt, pol: pol == 'F' and isinstance(tt, ast.BinOp) and isinstance(tt.op, ast.BitAnd) and
                                                      src(tt.left) == evp and src(tt.right) in ('select.POLLIN', 'select.EPOLLIN')))
